@@ -13,7 +13,7 @@ use crate::service::{ChainRpc, TransactionRpc};
 use super::super::chain::{lock_script, Chain};
 use super::super::refidx::{Registered, ST};
 use super::super::net::P;
-use super::super::out::{Out, RunCfg};
+use super::super::out::{hex, Out, RunCfg};
 use super::super::rng::Rng;
 use super::super::server::{self, LC};
 use super::super::world::{Hook, Label, Outcome, Resp, World};
@@ -31,6 +31,10 @@ struct Snap {
     /// outstanding GetBlocksProof / GetBlocks / GetTransactionsProof requests of the peer with the virtual time at which
     /// the client handed them to the network (None = the send was not observed)
     others: Vec<(&'static str, Option<u64>)>,
+    /// hashes of fetch_header / fetch_transaction calls that are in flight with this peer (named in its outstanding GetBlocksProof /
+    /// GetTransactionsProof request and still in the fetch tables)
+    inflight_headers: Vec<ckb_types::packed::Byte32>,
+    inflight_txs: Vec<ckb_types::packed::Byte32>,
     prove: Option<Vec<u8>>,
 }
 
@@ -75,7 +79,7 @@ impl ReqTimes {
 fn snap(w: &World, id: PeerIndex, times: &ReqTimes) -> Snap {
     let c = w.c();
     let name = state_name(w, id);
-    let mut s = Snap { name, when_sent: None, last_ts: None, other_requests: false, others: vec![], prove: None };
+    let mut s = Snap { name, when_sent: None, last_ts: None, other_requests: false, others: vec![], inflight_headers: vec![], inflight_txs: vec![], prove: None };
     if let Some(st) = c.peers.get_state(&id) {
         let txt = format!("{:#}", st);
         if let Some(p) = txt.find("when_sent: ") {
@@ -86,6 +90,12 @@ fn snap(w: &World, id: PeerIndex, times: &ReqTimes) -> Snap {
     }
     if let Some(p) = c.peers.get_peer(&id) {
         s.other_requests = p.get_blocks_proof_request().is_some() || p.get_blocks_request().is_some() || p.get_txs_proof_request().is_some();
+        if let Some(req) = p.get_blocks_proof_request() {
+            s.inflight_headers = req.block_hashes().into_iter().map(|h| h.pack()).filter(|h: &ckb_types::packed::Byte32| c.peers.get_header_fetch_info(h).is_some()).collect();
+        }
+        if let Some(req) = p.get_txs_proof_request() {
+            s.inflight_txs = req.tx_hashes().into_iter().map(|h| h.pack()).filter(|h: &ckb_types::packed::Byte32| c.peers.get_tx_fetch_info(h).is_some()).collect();
+        }
         for (kind, exists) in [("GetBlocksProof", p.get_blocks_proof_request().is_some()), ("GetBlocks", p.get_blocks_request().is_some()), ("GetTransactionsProof", p.get_txs_proof_request().is_some())] {
             if exists {
                 // the send time of a request is read off the outbound message; once sends to this session fail (fault injection: the
@@ -195,6 +205,21 @@ impl<'a> Mon<'a> {
                 if a.name != "NoPeer" || w.c().peers.get_peer(&id).is_some() || w.c().peers.get_peers_index().contains(&id) {
                     self.violated = true;
                     self.out.violation("C11.R4", "C11|residue-after-disconnect", json!({"scenario": self.desc, "edge": edge, "edges": self.trace_edges}), self.k);
+                }
+                // R4 (second half): what the removed peer was fetching is eligible for other peers again
+                let eligible_headers = w.c().peers.get_headers_to_fetch();
+                let eligible_txs = w.c().peers.get_txs_to_fetch();
+                for (what, hashes, eligible) in [("header", &b.inflight_headers, &eligible_headers), ("transaction", &b.inflight_txs, &eligible_txs)] {
+                    for h in hashes.iter() {
+                        self.out.eval(1);
+                        self.out.cell(&format!("in-flight-fetch-of-removed-peer|{}|{}", what, peer_cause));
+                        let still_wanted = if what == "header" { w.c().peers.get_header_fetch_info(h).is_some() } else { w.c().peers.get_tx_fetch_info(h).is_some() };
+                        if still_wanted && !eligible.contains(h) && !self.violated {
+                            self.violated = true;
+                            self.out.violation("C11.R4", &format!("C11|in-flight-fetch-not-re-eligible|{}|{}", what, peer_cause),
+                                json!({"scenario": self.desc, "edge": edge, "hash": hex(h.as_slice()), "edges": self.trace_edges, "trace": w.trace_vec().into_iter().rev().take(12).collect::<Vec<_>>()}), self.k);
+                        }
+                    }
                 }
                 continue;
             }
@@ -342,7 +367,7 @@ fn scenario(seed: u64, k: u64, out: &Out) {
                     let o = w.connect(pi);
                     let ids2: HashMap<usize, PeerIndex> = w.peers.iter().enumerate().map(|(i, p)| (i, p.id)).collect();
                     // the new session has a new id: its "before" is NoPeer
-                    mon.before.insert(pi, Snap { name: "NoPeer".into(), when_sent: None, last_ts: None, other_requests: false, others: vec![], prove: None });
+                    mon.before.insert(pi, Snap { name: "NoPeer".into(), when_sent: None, last_ts: None, other_requests: false, others: vec![], inflight_headers: vec![], inflight_txs: vec![], prove: None });
                     mon.judge(&w, "connected", Some(pi), &o, &ids2, &hk.times);
                 }
             }
